@@ -63,9 +63,21 @@ where
 
     fn call(&mut self, req: http::request::Parts) -> Self::Future {
         let config = self.config.clone();
-        let Some(host) = req.uri.host().map(String::from) else {
+        // URIs write IPv6 literals in brackets, TLS server names do not.
+        let Some(host) = req
+            .uri
+            .host()
+            .map(|host| host.trim_start_matches('[').trim_end_matches(']'))
+            .map(String::from)
+        else {
             return future::TlsConnectionFuture::error(TlsConnectionError::NoDomain);
         };
+
+        // Not every host a URI can hold is a valid server name: report those as an error
+        // here, where there is a way to do so, instead of panicking once connected.
+        if rustls::pki_types::ServerName::try_from(host.as_str()).is_err() {
+            return future::TlsConnectionFuture::error(TlsConnectionError::InvalidDomain(host));
+        }
 
         let future = self.transport.connect(req);
 
